@@ -10,8 +10,18 @@ and messages built from word lists (short words, 30-59 character words, words lo
 60 / 80 character wrap widths, hyphenated words) joined by single spaces, double spaces and
 explicit newlines.  Diagnostics are frozen dataclasses implementing the Error/Note/Help protocols;
 spans are handed over as `Span` objects or (about a quarter) as annotated ast nodes (`ToSpan`);
-the source is registered with `SourceMap.add_file(file, content)`; the observation is
-`DiagnosticsRenderer.buffer`.
+the observation is `DiagnosticsRenderer.buffer`.
+
+Registration (about half each): `SourceMap.add_file(file, content)` with the explicit text, or
+`SourceMap.add_file(file)` which reads the file through `linecache` like the compiler does for parsed
+definitions - a real file written below a per-process scratch directory (line ends \n, \r\n or \r)
+for path-like names, an injected `linecache.cache` entry for pseudo files (`<In[3]>`, as IPython /
+doctest do).  Files read through linecache may carry the characters that `str.splitlines` treats as
+line boundaries but Python's tokenizer / ast / linecache do not (\v \f \x1c-\x1e \x85 U+2028 U+2029)
+in the middle of a physical line.  About a third of the cases have a registration HISTORY on the same
+`SourceMap`: 1-2 earlier registrations of the same file with an older text (the file was edited and
+its definitions parsed again) or of another file; the diagnostic is rendered against the LAST
+registration of its file.
 
 Findings of this check on the unchanged tree (re-open all with C29_EXCLUDE=none):
   wrap.longword_split / wrap.hyphen_break        `wrap` keeps textwrap's break_long_words /
@@ -97,19 +107,85 @@ _HYPH_RE = re.compile(r"\w-+\w")
 SRC_TOK = ["x", "=", "foo(", ")", "def", "return", "apple", "==", "orange", "q0,", "lam", "'s|t'",
            "|", "^^", "--", "...", "#", "a_long_identifier_name", "1234567890", "é→λ", "[i]", ":",
            "if", "not", "变量", "    ", " | "]
+# tokens with a character at which str.splitlines() splits but Python's universal-newline reading
+# (tokenizer, ast line numbers, linecache, inspect) does not; always between two non-space characters.
+# Only used in sources that are read through linecache (explicit content is defined by splitlines).
+LB_TOK = ["'a\x0cb'", "#\u2028§", "s\x0bt", "'\x1c'", "x\x1dy", "p\x1eq", "n\x85m", "u\u2029v"]
+LB_CHARS = "\x0b\x0c\x1c\x1d\x1e\x85\u2028\u2029"
 FILES = ["<unknown>", "a.py", "pkg/mod.py", "<In[3]>"]
+EOLS = ["\n", "\n", "\r\n", "\r"]
 BASE_INDENT = [16, 0, 0, 4, 8, 12, 13, 14, 17, 20, 24, 33, 40]
 PADS = [0, 0, 0, 0, 7, 8, 9, 97, 98, 99, 998, 1000]
 
 
 # ----------------------------------------------------------------------------- case helpers
-def expand_lines(case):
+def raw_lines(case):
+    """physical lines of the source text as written"""
     n, text = case.get("pad", [0, ""])
     return [text] * n + list(case["lines"])
 
 
-def source_text(case):
-    return "\n".join(expand_lines(case)) + ("\n" if case.get("trailing_nl", True) else "")
+def expand_lines(case):
+    """lines of the REGISTERED source: the physical lines; for a file read through linecache without
+    their (invisible) trailing whitespace, see SPEC.assumptions"""
+    L = raw_lines(case)
+    if case.get("reg", "content") == "file":
+        L = [x.rstrip() for x in L]
+    return L
+
+
+def source_text(case, eol="\n"):
+    return eol.join(raw_lines(case)) + (eol if case.get("trailing_nl", True) else "")
+
+
+_SCRATCH = []
+
+
+def scratch_dir():
+    if not _SCRATCH:
+        import atexit
+        import shutil
+        import tempfile
+        _SCRATCH.append(tempfile.mkdtemp(prefix="c29_src_"))
+        atexit.register(shutil.rmtree, _SCRATCH[0], ignore_errors=True)
+    return _SCRATCH[0]
+
+
+def actual_file(name, reg):
+    """file name under which the source is known to the SourceMap"""
+    if reg == "file" and not name.startswith("<"):
+        return os.path.join(scratch_dir(), name)
+    return name
+
+
+def register(sm, entry, touched):
+    """One registration step on SourceMap `sm`. entry: file / reg / pad / lines / trailing_nl / eol.
+    reg == "content": add_file(file, text).  reg == "file": add_file(file) - the text is looked up
+    through linecache, which is refreshed first (inspect.getsourcelines -> linecache.checkcache does
+    that in the compiler): real file on disk, or an injected cache entry for pseudo file names."""
+    import linecache
+
+    reg = entry.get("reg", "content")
+    name = actual_file(entry["file"], reg)
+    if reg == "content":
+        sm.add_file(name, source_text(entry))
+        return name
+    raw = raw_lines(entry)
+    touched.append(name)
+    if name.startswith("<"):
+        linecache.cache[name] = (len(source_text(entry)), None, [x + "\n" for x in raw], name)
+    else:
+        os.makedirs(os.path.dirname(name), exist_ok=True)
+        with open(name, "w", encoding="utf-8", newline="") as f:
+            f.write(source_text(entry, entry.get("eol", "\n")))
+        linecache.cache.pop(name, None)
+    # harness soundness, independent of the SourceMap under test
+    seen = [x[:-1] if x.endswith("\n") else x for x in linecache.getlines(name)]
+    if seen != raw:
+        raise ValueError(f"unsound case: linecache does not show the intended physical lines for {name!r}: "
+                         f"{seen[:5]!r} != {raw[:5]!r}")
+    sm.add_file(name)
+    return name
 
 
 def lead(line):
@@ -144,7 +220,7 @@ def build(case):
     from guppylang_internals.diagnostic import Error, Help, Note
     from guppylang_internals.span import Loc, Span
 
-    file = case["file"]
+    file = actual_file(case["file"], case.get("reg", "content"))
 
     def mk_span(s, form):
         if s is None:
@@ -183,9 +259,10 @@ def render(case):
     from guppylang_internals.diagnostic import DiagnosticsRenderer
     from guppylang_internals.span import SourceMap
 
+    import linecache
+
     L = expand_lines(case)
-    src = source_text(case)
-    if src.splitlines() != L:
+    if case.get("reg", "content") == "content" and source_text(case).splitlines() != L:
         raise ValueError("unsound case: source text does not split into the intended lines")
     for _, d in all_diags(case):
         s = d["span"]
@@ -196,7 +273,19 @@ def render(case):
                 raise ValueError(f"unsound case: span {s} outside the registered source")
     diag = build(case)
     sm = SourceMap()
-    sm.add_file(case["file"], src)
+    touched = []
+    try:
+        for h in case.get("history", []):
+            register(sm, h, touched)
+        register(sm, case, touched)
+    except ValueError:
+        raise
+    except Exception as e:  # noqa: BLE001
+        tb = "".join(traceback.format_exception(type(e), e, e.__traceback__))[-1200:]
+        return None, (f"register.raises.{type(e).__name__}", "registering the source raised:\n" + tb)
+    finally:
+        for name in touched:
+            linecache.cache.pop(name, None)
     r = DiagnosticsRenderer(sm)
     try:
         r.render_diagnostic(diag)
@@ -436,7 +525,7 @@ def check_layout(case, buf, _attribute=True):
         else:
             s = P["span"]
             head = cur.take("header")
-            want = f"{LEVEL['error']}: {P['title']} (at {case['file']}:{s[0]}:{s[1]})"
+            want = f"{LEVEL['error']}: {P['title']} (at {actual_file(case['file'], case.get('reg', 'content'))}:{s[0]}:{s[1]})"
             if head[:5].lower() != "error" or head[5:] != want[5:]:
                 raise Mismatch("header", f"expected {want!r}, got {head!r}")
             spans = [s] + [c["span"] for c in case["children"] if c["span"] is not None]
@@ -473,7 +562,7 @@ def check_layout(case, buf, _attribute=True):
 
 
 def show(case, buf):
-    s = f"file={case['file']!r} primary.span={case['primary']['span']} " \
+    s = f"file={case['file']!r} reg={case.get('reg', 'content')} history={[(h['file'], h['reg'], len(raw_lines(h))) for h in case.get('history', [])]} primary.span={case['primary']['span']} " \
         f"children={[(c['level'], c['span']) for c in case['children']]}\n"
     if buf is not None:
         s += "rendered:\n" + "\n".join(buf[:40])
@@ -522,6 +611,18 @@ def describe(case):
         labs.append(f"gutter:{len(str(max(x[2] for x in spans)))}")
     if any(d.get("form") == "ast" for _, d in all_diags(case)):
         labs.append("form:ast")
+    reg = case.get("reg", "content")
+    labs.append("reg:content" if reg == "content" else
+                "reg:file.lcache" if case["file"].startswith("<") else "reg:file.disk")
+    if reg == "file" and not case["file"].startswith("<") and case.get("eol", "\n") != "\n":
+        labs.append("eol:cr/crlf")
+    if any(ch in x for x in raw_lines(case) for ch in LB_CHARS):
+        labs.append("src:splitlines_char")
+    if reg == "file" and raw_lines(case) != L:
+        labs.append("src:trailing_ws_stripped")
+    for h in case.get("history", []):
+        labs.append("hist:same_file" if actual_file(h["file"], h["reg"]) == actual_file(case["file"], reg)
+                    else "hist:other_file")
     labs.append(f"subs:{len(case['children'])}")
     for c in case["children"]:
         if c["span"] is not None:
@@ -579,7 +680,7 @@ def gen_diag(st):
 
     line_tmpl = st.tuples(st.sampled_from([0, 0, 0, 4, 8, 1, 2]),          # extra indentation
                           st.sampled_from([0] * 12 + [1, 2, 3]),           # 1 blank 2 ws-only 3 dedent
-                          st.lists(st.integers(0, len(SRC_TOK) - 1), min_size=0, max_size=9))
+                          st.lists(st.integers(0, len(SRC_TOK) + len(LB_TOK) - 1), min_size=0, max_size=9))
     KINDS = ["single"] * 4 + ["multi2"] * 3 + ["multi3"] * 3 + ["empty"]
     dice = st.sampled_from(range(12))
 
@@ -654,11 +755,22 @@ def gen_diag(st):
     @st.composite
     def diag(draw):
         excl = []
+        # how the source gets into the SourceMap: explicit content, or looked up through linecache
+        reg = draw(st.sampled_from(["content", "file"]))
+        # line-boundary characters of str.splitlines inside a physical line: only meaningful for a file
+        # read with Python's own line splitting (explicit content is split by splitlines by definition)
+        lb = reg == "file" and draw(st.booleans())
+
+        def tok(t):
+            if t < len(SRC_TOK):
+                return SRC_TOK[t]
+            return LB_TOK[t - len(SRC_TOK)] if lb else SRC_TOK[t - len(SRC_TOK)]
+
         base = draw(st.sampled_from(BASE_INDENT) | st.integers(0, 40))
         tmpls = draw(st.lists(line_tmpl, min_size=1, max_size=6))
         rendered = []
         for extra, special, toks in tmpls:
-            body = " ".join(SRC_TOK[t] for t in toks)
+            body = " ".join(tok(t) for t in toks)
             if special == 1:
                 rendered.append("")
             elif special == 2:
@@ -673,6 +785,23 @@ def gen_diag(st):
         pad_n = draw(st.sampled_from(PADS))
         case = {"file": draw(st.sampled_from(FILES)), "pad": [pad_n, rendered[0]], "lines": lines}
         case["trailing_nl"] = True if lines[-1] == "" else draw(st.booleans())
+        if reg == "file":
+            case["reg"] = reg
+            case["eol"] = draw(st.sampled_from(EOLS))
+        if draw(dice) >= 8:
+            # registration history of the same SourceMap: the file was registered before with an older
+            # text (other selection of the lines, other number of lines in front), or another file was
+            hist = []
+            for _ in range(draw(st.sampled_from([1, 1, 2]))):
+                same = draw(dice) <= 7
+                hn = draw(st.sampled_from([1, 2, 3, 5, 8, 13]))
+                horder = draw(st.lists(st.integers(0, len(rendered) - 1), min_size=hn, max_size=hn))
+                hlines = [rendered[i] for i in horder]
+                hist.append({"file": case["file"] if same else draw(st.sampled_from(FILES)),
+                             "reg": draw(st.sampled_from(["file", "content"])),
+                             "pad": [draw(st.sampled_from([0, 0, 2, 5, pad_n])), rendered[-1]],
+                             "lines": hlines, "trailing_nl": True, "eol": draw(st.sampled_from(EOLS))})
+            case["history"] = hist
         L = expand_lines(case)
         t_items = draw(title_items)
         title = mk_text(t_items, None, excl, seps=False)          # the header line is never wrapped
@@ -758,7 +887,10 @@ SPEC = harness.Spec(
     PROP, worker, replay,
     rule=("GenDiag (Hypothesis): source of 1-40 drawn lines (+0..1000 filler lines in front) with base "
           "indentation 0-40, an Error with an in-file span (empty / single / 2-line / 3+ lines, any columns "
-          "within the lines; Span object or annotated ast node) or without span, 0-3 Note/Help sub-diagnostics "
+          "within the lines; Span object or annotated ast node) or without span; source registered with explicit "
+          "content or read through linecache (real file with \\n / \\r\\n / \\r line ends, or injected cache entry; "
+          "then also with the extra line-boundary characters of str.splitlines inside physical lines), a third "
+          "behind 1-2 earlier registrations of the same (older text) or another file; 0-3 Note/Help sub-diagnostics "
           "with/without span, texts from word "
           "lists incl. over-width and hyphenated words, double spaces and explicit newlines; rendered with "
           "DiagnosticsRenderer and parsed against the documented layout. non-trivial = primary span starting "
@@ -772,7 +904,13 @@ SPEC = harness.Spec(
         "column 0 or limit the trimming to its smallest column (both accepted)",
         "a sub-diagnostic that has both a span and a message shows both (statement: every word of every message)",
         "texts contain no `{`/`}` (placeholder formatting is not part of C29), no tabs and no leading/trailing "
-        "or whitespace-only paragraphs; source lines contain no line-break characters other than the joining \\n",
+        "or whitespace-only paragraphs; explicitly registered content contains no line-break characters other "
+        "than the joining \\n (add_file(file, content) is defined through str.splitlines)",
+        "a file registered without content (read through linecache) consists of the physical lines Python itself "
+        "numbers (ends \\n, \\r\\n, \\r only - what ast line numbers refer to); its lines are shown without "
+        "their trailing whitespace, and the common indentation is taken over those stripped lines",
+        "registered source = the text of the LAST registration of the file on the SourceMap (linecache being up "
+        "to date at that moment, as inspect.getsourcelines guarantees in the compiler)",
         "level words (Error/Note/Help) are compared case-insensitively (docstring says `note:`, snapshots `Note:`)",
     ],
     shards={"quick": 8, "thorough": 16},
